@@ -81,7 +81,7 @@ class Step:
 
 class Outcome:
     __slots__ = ("status", "exc", "excmsg", "value", "steps", "unsat", "mism", "ncons", "nvars",
-                 "triple_ok", "trace", "calls", "result_wires")
+                 "triple_ok", "trace", "calls", "result_wires", "mutated")
 
     def brief(self):
         return (self.status, self.exc, self.value)
@@ -93,10 +93,17 @@ def _apply(e, operands, out):
         return operands[e[1]]
     args = [_apply(s, operands, out) for s in e[2:]]
     c0 = len(H.R.cons)
+    before = [_snap(a) for a in args]
     try:
         res = O.IMPL[e[1]](*args)
     finally:
         out.calls += 1
+        # an operation must leave its operand OBJECTS as they were (value and wire expression)
+        for i, (a, b) in enumerate(zip(args, before)):
+            if b is not None and _snap(a) != b:
+                if getattr(out, "mutated", None) is None:
+                    out.mutated = []
+                out.mutated.append((e[1], arg_kinds(args), i, b[0], _snap(a)[0]))
         bad = H.R.unsatisfied(c0)
         if bad:
             ak = arg_kinds(args)
@@ -108,6 +115,15 @@ def _apply(e, operands, out):
     if out.steps is not None:
         out.steps.append((e[1], arg_kinds(args), H.plain(res)))
     return res
+
+
+def _snap(a):
+    """(value, wire expression) of a secret operand object; None for plain Python operands."""
+    lc = a if isinstance(a, H.rt.LinComb) else getattr(a, "lc", None)
+    if not isinstance(lc, H.rt.LinComb):
+        return None
+    inner = getattr(lc.lc, "lc", lc.lc)
+    return (lc.value, tuple(sorted(inner.items())) if isinstance(inner, dict) else repr(inner))
 
 
 def arg_kinds(args):
@@ -140,6 +156,7 @@ def execute(prog, vals, mode, n, want_trace=False, p=None, want_steps=False):
     rt = H.rt
     out = Outcome()
     out.unsat, out.mism, out.calls = [], [], 0
+    out.mutated = None
     out.steps = [] if want_steps else None
     out.trace = None
     out.result_wires = None
